@@ -83,10 +83,11 @@ func c06FetchSet(d *c12Dag, viol func(sig, detail string), r *core.Run) {
 		if r != nil {
 			r.Transitions.Add(1)
 		}
-		if err != nil {
+		if err != nil && !d.mayRefuse {
 			viol("error-without-fault "+via, fmt.Sprintf("%s: %v", d.c, err))
 			continue
 		}
+		refused := err != nil
 		got := map[string]bool{}
 		var extra []cid.Cid
 		for _, c := range d.s.Reads() {
@@ -107,7 +108,7 @@ func c06FetchSet(d *c12Dag, viol func(sig, detail string), r *core.Run) {
 				missing = append(missing, b)
 			}
 		}
-		if len(missing) > 0 {
+		if len(missing) > 0 && !refused {
 			class := ""
 			if d.tree != nil {
 				// leading empty chunks are the known finding; an empty chunk
@@ -187,7 +188,7 @@ func c06Transient(d *c12Dag, via string, x *xplore.Ctx, viol func(sig, detail st
 			viol("partial-entity-no-error "+via+" "+d.c.Kind, fmt.Sprintf("%s: %d load(s) failed (choices %v), blocks %s were never loaded, but %s returned no error", d.c, failed, x.Choices, shortList(never), via))
 		}
 	}
-	if failed == 0 && err != nil {
+	if failed == 0 && err != nil && !d.mayRefuse {
 		viol("error-without-fault "+via, fmt.Sprintf("%s: %v", d.c, err))
 	}
 	return fmt.Sprintf("%s failed=%d err=%v", via, failed, err != nil)
@@ -212,6 +213,11 @@ func runC06(r *core.Run) {
 	// FileSize, empty chunks in the middle
 	for _, h := range gen.HandFamily() {
 		cases = append(cases, c05Case{Kind: "hand", Hand: h.Label})
+	}
+	// decodable shard DAGs neither writer emits: child shards of another fanout
+	// (prefix width) than their parent
+	for _, l := range gen.HandShardLabels() {
+		cases = append(cases, c05Case{Kind: "handshard", Hand: l})
 	}
 	usize := 9
 	fanouts := []int{8, 16, 256}
